@@ -172,13 +172,18 @@ def run(ctx):
         ru = eng.run(c["args"], hosts, seed=c.get("seed", 1), spur=c.get("spur", 0), replay=c.get("schedule"), ptick=c.get("ptick", 0))
         runs.append((ru, c["n"], c["f"], c["tconn"], c["tcmd"], c["behs"], hosts, c.get("ptick", 0) == 0))
     nrun = 2500 if quick else 40000
+    early_bad = 0
     for k in range(nrun):
         n, f, tconn, tcmd, behs, hosts = scenario(r)
         ptick = r.choice([0, 0, 0, 8])
         spur = r.weighted([(0, 4), (1, 2), (2, 1)])
         args = ["-R", "sim", "-f", str(f), "-t", str(tconn), "-u", str(tcmd), "-w", "h[0-%d]" % (n - 1), "cmd"]
-        ru = eng.run(args, hosts, seed=r.next() % (1 << 31), spur=spur, ptick=ptick, pspur=r.choice([10, 40]))
+        ru = eng.run(args, hosts, seed=r.next() % (1 << 31), spur=spur, ptick=ptick, pspur=r.choice([10, 40]), env={"SCHED_MAXSTEP": "30000"}, timeout=10)
         runs.append((ru, n, f, tconn, tcmd, behs, hosts, ptick == 0))
+        if judge(ru, n, f, tconn, tcmd, behs, hosts, ptick == 0):
+            early_bad += 1
+            if early_bad >= 5:      # enough failing schedules: stop exploring, report them
+                break
     # documented complement: command timeout 0 waits for a host that hangs mid-command
     waits = 0
     for k in range(3 if quick else 20):
@@ -189,7 +194,7 @@ def run(ctx):
             waits += 1
     cases = []
     for ru, n, f, tconn, tcmd, behs, hosts, mp in runs:
-        cases.append("sys %d %d %d %d 0 %s %d %s" % (n, f, tconn, tcmd, behs, T0, " ".join(ru.sys_events())))
+        cases.append("%s %d %d %d %d 0 %s %d %s" % ("sysmp" if mp else "sys", n, f, tconn, tcmd, behs, T0, " ".join(ru.sys_events())))
     ctx.log("%d fault scenarios run through the whole program under the controlled scheduler; validating traces against Dsh/Sys.v" % len(runs))
     acc = ctx.run_lines([model], cases, env={"OCAMLRUNPARAM": "l=4G"}, crash_tag="MODEL-CRASH")
     bad, nacc, samples = 0, 0, []
